@@ -197,6 +197,7 @@ func (d *Descriptor) readAsSlice(out Outputter, data []byte) (n int, err error) 
 		// We won't support that for now. So this is either a float64 or float32
 		offset := 0
 		for offset < len(data) {
+			verifYield("desc.scalars")
 			n, err := elt.read(out, data[offset:])
 			if err != nil {
 				return 0, err
@@ -212,6 +213,7 @@ func (d *Descriptor) readAsSlice(out Outputter, data []byte) (n int, err error) 
 		}
 		offset := n
 		for i := 0; i < int(count); i++ {
+			verifYield("desc.slice")
 			if offset >= len(data) {
 				return 0, fmt.Errorf("corrupt data looking for length of slice entry %d", i)
 			}
@@ -253,6 +255,7 @@ func (d *Descriptor) readAsMapEntry(out Outputter, data []byte) (n int, err erro
 
 	var offset int
 	for offset < l {
+		verifYield("desc.struct")
 		wt, index, n := plenccore.ReadTag(data[offset:])
 		offset += n
 
@@ -305,6 +308,7 @@ func (d *Descriptor) readAsStruct(out Outputter, data []byte) (n int, err error)
 
 	var offset int
 	for offset < l {
+		verifYield("desc.struct")
 		wt, index, n := plenccore.ReadTag(data[offset:])
 		offset += n
 
@@ -363,6 +367,7 @@ func (d *Descriptor) readAsJSON(out Outputter, data []byte) (n int, err error) {
 	}
 	offset := n
 	for i := 0; i < int(count); i++ {
+		verifYield("desc.json")
 		// For each entry we have a string key, a value type and a value
 		s, n := plenccore.ReadVarUint(data[offset:])
 		if n <= 0 {
@@ -390,6 +395,7 @@ func (d *Descriptor) readJSONObjectKV(out Outputter, data []byte) (n int, err er
 	)
 
 	for offset < len(data) {
+		verifYield("desc.jsonkv")
 		wt, index, n := plenccore.ReadTag(data[offset:])
 		offset += n
 		switch index {
